@@ -14,7 +14,7 @@ git apply --check "$OUT/patch.diff" || { echo "PATCH DOES NOT APPLY"; }
 # 1. baseline unit tests of the touched crates at HEAD
 for c in "$@"; do cargo test -p $c --lib --offline 2>&1 | grep -E "^test result|FAILED|failed" | tail -3 | sed "s/^/[HEAD $c] /"; done
 # 2. demo at HEAD (expected: pass); the demo diff is applied here, never by the command itself
-DEMO=$(echo "$DEMO" | sed -E "s#git apply [^&;]*demo.diff *(&&|;)##g")
+DEMO=$(echo "$DEMO" | sed -E "s#git apply [^&;]*demo.diff *(&&|;)##g; s#[[:space:]]+\\([^()]*\\)[[:space:]]*\$##; s#[[:space:]]+\\([^()]*\\)[[:space:]]*(&&|;)# \\1#g")
 [ -f "$OUT/demo.diff" ] && { git apply "$OUT/demo.diff" || echo "DEMO DIFF DOES NOT APPLY"; }
 bash -c "$DEMO" > "$WT/demo_head.txt" 2>&1; echo "[demo at HEAD] exit=$?"; grep -E "^test result|panicked|FAILED|error" "$WT/demo_head.txt" | head -5
 # 3. with the patch
